@@ -630,7 +630,7 @@ def dtlz5(ind, n_objs):
     gval = g(ind[n_objs - 1:])
 
     theta = lambda x: pi / (4.0 * (1 + gval)) * (1 + 2 * gval * x)
-    fit = [(1 + gval) * cos(pi / 2.0 * ind[0]) * reduce(lambda x, y: x * y, [cos(theta(a)) for a in ind[1:]])]
+    fit = [(1 + gval) * cos(pi / 2.0 * ind[0]) * reduce(lambda x, y: x * y, [cos(theta(a)) for a in ind[1:n_objs - 1]], 1)]
 
     for m in reversed(range(1, n_objs)):
         if m == 1:
@@ -651,7 +651,7 @@ def dtlz6(ind, n_objs):
     theta = lambda x: pi / (4.0 * (1 + gval)) * (1 + 2 * gval * x)
 
     fit = [(1 + gval) * cos(pi / 2.0 * ind[0]) *
-           reduce(lambda x, y: x * y, [cos(theta(a)) for a in ind[1:]])]
+           reduce(lambda x, y: x * y, [cos(theta(a)) for a in ind[1:n_objs - 1]], 1)]
 
     for m in reversed(range(1, n_objs)):
         if m == 1:
